@@ -107,7 +107,7 @@ fn region_quarter(x: [f64; 2]) -> &'static str {
     }
 }
 
-pub fn judge_powf(x: [f64; 2], y: [f64; 2], l: Option<&mut Local>) -> Verdict {
+pub fn judge_powf(x: [f64; 2], y: [f64; 2], mut l: Option<&mut Local>) -> Verdict {
     let args = [x[0].to_bits(), x[1].to_bits(), y[0].to_bits(), y[1].to_bits()];
     if !dd_valid_fast(x[0], x[1]) || !dd_valid_fast(y[0], y[1]) {
         return Verdict::Skip;
@@ -117,7 +117,9 @@ pub fn judge_powf(x: [f64; 2], y: [f64; 2], l: Option<&mut Local>) -> Verdict {
         Err(m) => return Verdict::fail("no_panic", "powf", &args, format!("panic: {}", m), "a value for valid arguments".into(), "panic"),
     };
     // every other spelling of the same power (num_traits::Pow with a TwoFloat or an f64 exponent, by value and by
-    // reference; Float::powf) must be the same function: the clauses below then hold at those observation sites too
+    // reference; Float::powf): whenever one returns different words from the inherent method it is judged by the same
+    // value clauses (that the spellings are bit-identical is C10's claim, not this property's)
+    let mut cands: Vec<(&'static str, [f64; 2])> = vec![("powf", r)];
     {
         use num_traits::Pow;
         let (t, ty, f) = (st::mk(x), st::mk(y), y[0]);
@@ -142,22 +144,33 @@ pub fn judge_powf(x: [f64; 2], y: [f64; 2], l: Option<&mut Local>) -> Verdict {
             Ok(v) => {
                 for (nm, w) in v {
                     if crate::api::canon(w.hi().to_bits()) != crate::api::canon(r[0].to_bits()) || crate::api::canon(w.lo().to_bits()) != crate::api::canon(r[1].to_bits()) {
-                        return Verdict::fail("powf: trait spelling", "powf", &args, format!("{} = {}", nm, show_dd([w.hi(), w.lo()])), format!("inherent powf = {}", show_dd(r)), "spelling_differs");
+                        cands.push((nm, [w.hi(), w.lo()]));
                     }
                 }
             }
         }
     }
+    for (nm, r) in cands {
+        let v = powf_value(nm, x, y, r, &args, l.as_deref_mut());
+        if v.is_fail() {
+            return v;
+        }
+    }
+    Verdict::Pass
+}
+
+/// the value clauses of powf for one observed result `r` (from `powf` or from another spelling)
+fn powf_value(name: &'static str, x: [f64; 2], y: [f64; 2], r: [f64; 2], args: &[u64], l: Option<&mut Local>) -> Verdict {
     let (vx, vy) = (bfx(x), bfx(y));
     if vx.is_zero() && vy.is_zero() {
-        return if is_invalid(r) { Verdict::Pass } else { Verdict::fail("0^0 invalid", "powf", &args, show_dd(r), "an invalid value".into(), "valid_for_domain_error") };
+        return if is_invalid(r) { Verdict::Pass } else { Verdict::fail("0^0 invalid", name, args, show_dd(r), "an invalid value".into(), "valid_for_domain_error") };
     }
     if vy.is_zero() {
-        return if r[0] == 1.0 && r[1] == 0.0 { Verdict::Pass } else { Verdict::fail("x^0=1", "powf", &args, show_dd(r), "1".into(), "wrong_value") };
+        return if r[0] == 1.0 && r[1] == 0.0 { Verdict::Pass } else { Verdict::fail("x^0=1", name, args, show_dd(r), "1".into(), "wrong_value") };
     }
     if vx.is_zero() {
         if vy.sign() > 0 {
-            return if r[0] == 0.0 && r[1] == 0.0 { Verdict::Pass } else { Verdict::fail("0^y=0 (y>0)", "powf", &args, show_dd(r), "0".into(), "wrong_value") };
+            return if r[0] == 0.0 && r[1] == 0.0 { Verdict::Pass } else { Verdict::fail("0^y=0 (y>0)", name, args, show_dd(r), "0".into(), "wrong_value") };
         }
         return Verdict::Skip;
     }
@@ -167,7 +180,7 @@ pub fn judge_powf(x: [f64; 2], y: [f64; 2], l: Option<&mut Local>) -> Verdict {
         // integer y: parity decides the sign; non-integer y: invalid
         let dy = vy.to_dy();
         if !dy.is_integer() {
-            return if is_invalid(r) { Verdict::Pass } else { Verdict::fail("negative^non-integer invalid", "powf", &args, show_dd(r), "an invalid value".into(), "valid_for_domain_error") };
+            return if is_invalid(r) { Verdict::Pass } else { Verdict::fail("negative^non-integer invalid", name, args, show_dd(r), "an invalid value".into(), "valid_for_domain_error") };
         }
         // parity of the exact integer
         let half = dy.mul_pow2(-1);
@@ -177,17 +190,17 @@ pub fn judge_powf(x: [f64; 2], y: [f64; 2], l: Option<&mut Local>) -> Verdict {
             if !in_acc {
                 return Verdict::Skip;
             }
-            return Verdict::fail("negative^integer sign", "powf", &args, show_dd(r), format!("{}|x|^y", if want_neg { "-" } else { "+" }), "nan_result");
+            return Verdict::fail("negative^integer sign", name, args, show_dd(r), format!("{}|x|^y", if want_neg { "-" } else { "+" }), "nan_result");
         }
         if r[0] != 0.0 && (r[0] < 0.0) != want_neg {
-            return Verdict::fail("negative^integer sign", "powf", &args, show_dd(r), format!("sign {} (parity of the integer exponent)", if want_neg { "-" } else { "+" }), "wrong_sign");
+            return Verdict::fail("negative^integer sign", name, args, show_dd(r), format!("sign {} (parity of the integer exponent)", if want_neg { "-" } else { "+" }), "wrong_sign");
         }
     }
     if !in_acc {
         return Verdict::Pass;
     }
     let ax = vx.abs();
-    judge_tol("powf: 2^-100 (1+|y ln x|) rel", "powf", &args, r, |p| {
+    judge_tol("powf: 2^-100 (1+|y ln x|) rel", name, args, r, |p| {
         let lnx = rf::ln_pt(&ax, p + 40);
         let yl = lnx.mul(&Iv::from_exact(&vy, p + 40), p + 40);
         let e0 = rf::exp(&yl, p);
